@@ -480,3 +480,27 @@ pub fn pexpr_program(e: &str, valuation: &[&str; 6]) -> String {
     s.push_str(&format!("DISPLAY({e})\nDISPLAY(w0)\nDISPLAY(w1)\n"));
     s
 }
+
+/// a type-correct argument for position `i` of library procedure `name` of module `m` (so that a sweep over one
+/// position reaches the code behind the casts of the other positions); `mp` / `rb` / `lst` are a map, a robot and
+/// a list the caller's prelude defines
+pub fn plausible_arg(m: &str, name: &str, i: usize) -> &'static str {
+    match (name, i) {
+        ("DISPLAY", _) | ("DISPLAY_NOLN", _) => "\"shown\"",
+        ("INSERT", 0) | ("APPEND", 0) | ("REMOVE", 0) | ("JOIN", 0) | ("LENGTH", 0) => "lst",
+        ("INSERT", 1) | ("REMOVE", 1) => "1",
+        ("FORMAT", 0) | ("DISPLAYF", 0) => "\"{}!\"",
+        ("FORMAT", 1) | ("DISPLAYF", 1) => "[\"v\"]",
+        ("STYLE", _) => "\"red\"",
+        ("INPUT_PROMPT", _) => "\"prompt> \"",
+        ("ROBOT_MAP", _) => "\".n.\"",
+        ("CAN_MOVE", 1) => "\"left\"",
+        (n, 0) if n.starts_with("MAP_") => "mp",
+        (n, 0) if ["MOVE_FORWARD", "MOVE_FOWARD", "CAN_MOVE", "ROTATE_LEFT", "ROTATE_RIGHT", "FORMAT_ROBOT", "FORMAT_ROBOT_ASCII"].contains(&n) => "rb",
+        ("SUBSTRING", 1) | ("SUBSTRING", 2) => "1",
+        ("JOIN", 1) => "\", \"",
+        _ if m == "MATH" || name == "RANDOM" || name == "SLEEP" => "1",
+        _ if m == "STRING" => "\"a b\"",
+        _ => "1",
+    }
+}
